@@ -146,3 +146,15 @@ Proof.
   unfold num_lr. destruct (Z.eqb_spec n_new n); cbn [negb]; cbv zeta; [lia|].
   pose proof (Z.div_mod (n_new - n) 2 ltac:(lia)). pose proof (Z.mod_pos_bound (n_new - n) 2 ltac:(lia)). lia.
 Qed.
+
+(* an axis whose size does not change keeps its interval and cell side, whatever offset is given for it *)
+Lemma unaffected_axis (a : @axis R) off : axis_valid a ->
+  let r := resize_axis a (a_n a) off (a_bl a) (a_br a) in
+  cell_side r = cell_side a /\ a_min r = a_min a /\ a_max r = a_max a /\ num_lr (a_n a) (a_n a) off = (0, 0)%Z.
+Proof.
+  intros Hv r. destruct Hv as (Hn & Hb & Hb').
+  assert (E : num_lr (a_n a) (a_n a) off = (0, 0)%Z) by (unfold num_lr; now rewrite Z.eqb_refl).
+  destruct (resize_axis_covers a (a_n a) off (conj Hn (conj Hb Hb')) Hn Hb Hb') as (Hc & H0 & H1 & _).
+  fold r in Hc, H0, H1. rewrite E in H0, H1. cbn [fst snd] in H0, H1.
+  repeat split; [exact Hc | rewrite H0; lra | rewrite H1; lra | exact E].
+Qed.
